@@ -28,6 +28,14 @@ written from the statement):
     invocation id, with `lvl` / `err` as the exit path dictates (panic adds `err` + the panic level),
     kind = span, a range extent and trace / span ids.
 
+CANCELLATION is an exit path of its own for every async form (all `#[span]`-family attributes,
+`guard:`, `ok_lvl` / `err_lvl` / `err`, `new_span!` + `frame.in_future`, and an outer span awaiting
+a NESTED async span): the future is polled k = 0, 1, 2 (3) times by hand and dropped while
+suspended. k = 0: nothing was started, nothing completes. Otherwise exactly one span event per
+started span, through the default completion: the span's name, kind, its own properties, its own
+trace / span ids (nested: parent = the outer span, completed first), the attribute's level, no
+`err`, extent = reading at start .. reading at the drop. Signatures `C05:macro:completed-span:cancelled:*`.
+
 Extents: with a reading at start and one at completion the extent must be exactly that range, for
 guards and for every macro form. With an INTERMITTENT clock (scripted often: a reading at start but
 none at completion, or the other way round) no extent is accepted, and an extent that is there all
@@ -1696,9 +1704,9 @@ fn main() {
     let rounds = if cfg!(miri) { 1 } else { args.n(6, 60) };
     let total = jobs.len() as u64 * rounds;
     par_cases(&mut r, &args, total, |i, r| {
-        // under Miri (a third of a second per invocation) every run takes a third of the sites,
+        // under Miri (a third of a second per invocation) every run takes a quarter of the sites,
         // rotating with the seed, so a few Miri seeds cover all of them
-        if cfg!(miri) && (i + seed) % 3 != 0 {
+        if cfg!(miri) && (i + seed) % 4 != 0 {
             return;
         }
         let (fi, exit, en, mode) = jobs[(i % jobs.len() as u64) as usize];
